@@ -1,44 +1,129 @@
-(* Run.v — script runner: text in, transcript out.  Definitions only. *)
+(* Run.v — script runner: text in, transcript out.  World = one configuration + a virtual file
+   system.  Definitions only. *)
 From Coq Require Import List ZArith Bool.
 Import ListNotations.
-From LC Require Import Base Tree Fp Lookup Api ApiStep Script.
+From LC Require Import Base Tree Fp Lookup Api ApiStep Script ScanAction Tokens Lexer Parser Reader Writer FloatDec.
+From LC.gen Require Import Consts.
 Local Open Scope Z_scope.
+
+Record world := mkW { w_cfg : cfg; w_fs : fs }.
+
+Definition atof : bytes -> Z := strtod_bits.
+Definition fmt_double (b prec : Z) (sci : bool) : bytes := format_double b prec sci FBUF_SIZE.
 
 Definition w_dump := [100;117;109;112].
 Definition w_case := [99;97;115;101].
+Definition w_fs_ := [102;115].
+Definition w_put := [112;117;116].
+Definition w_dir := [100;105;114].
+Definition w_cat := [99;97;116].
+Definition w_reads := [114;101;97;100;115].
+Definition w_readf := [114;101;97;100;102].
+Definition w_readst := [114;101;97;100;115;116].
+Definition w_write := [119;114;105;116;101].
+Definition w_writef := [119;114;105;116;101;102].
+Definition w_lex := [108;101;120].
 
 Definition is_crash (r : ret) : bool := match r with RCrash => true | _ => false end.
 
-(* one line; returns new state, output lines, and whether to stop *)
-Definition run_line (c : cfg) (ln : bytes) : cfg * list bytes * bool :=
-  let ws := words ln in
-  match ws with
-  | [w] => if is_w w w_dump then (c, dump_cfg c, false) else
-           match parse_aop ws with
-           | Some o => let '(c', r, ev) := api_step c o in (c', show_result r ev, is_crash r)
-           | None => (c, [[82;32;63]], false)
-           end
-  | [w; a] =>
-      if is_w w w_case then (cfg_init, [[67; 32] ++ a], false) else
-      match parse_aop ws with
-      | Some o => let '(c', r, ev) := api_step c o in (c', show_result r ev, is_crash r)
-      | None => (c, [[82;32;63]], false)
-      end
-  | _ =>
-      match parse_aop ws with
-      | Some o => let '(c', r, ev) := api_step c o in (c', show_result r ev, is_crash r)
-      | None => (c, [[82;32;63]], false)
-      end
+Fixpoint fs_remove (f : fs) (p : bytes) : fs :=
+  match f with
+  | [] => []
+  | (q, o) :: r => if bytes_eqb q p then fs_remove r p else (q, o) :: fs_remove r p
+  end.
+Definition fs_put (f : fs) (p : bytes) (o : fsobj) : fs := (p, o) :: fs_remove f p.
+
+Definition show_rd (r : rd_result) : list bytes :=
+  match rd_out_ r with
+  | RdOk => ([82;32;105;49] :: map show_event (rd_events r))
+            ++ (match rd_stdout r with [] => [] | t => [[76;32;115;116;100;111;117;116;32] ++ show_hs (Some t)] end)
+  | RdFail => ([82;32;105;48] :: map show_event (rd_events r))
+              ++ (match rd_stdout r with [] => [] | t => [[76;32;115;116;100;111;117;116;32] ++ show_hs (Some t)] end)
+  | RdExit code => [[82;32;101;120;105;116;32] ++ show_dec code]          (* "R exit <n>" *)
+  | RdStuck => [[82;32;115;116;117;99;107]]                               (* "R stuck" *)
   end.
 
-Fixpoint run_lines (c : cfg) (ls : list bytes) : list bytes :=
+Definition is_exit (r : rd_result) : bool :=
+  match rd_out_ r with RdExit _ | RdStuck => true | _ => false end.
+
+(* token printing for the `lex` operation *)
+Definition show_ptok (t : ptok) : Z :=
+  match t with
+  | TEquals => 61 | TComma => 44 | TGroupStart => 123 | TGroupEnd => 125 | TArrayStart => 91
+  | TArrayEnd => 93 | TListStart => 40 | TListEnd => 41 | TSemicolon => 59 | TGarbage => 63
+  end.
+
+Definition show_token (t : ltoken) : bytes :=
+  [75; 32] ++
+  (match lt_tok t with
+   | TkBool v => [98] ++ show_dec v
+   | TkInt v => [105] ++ show_dec v
+   | TkInt64 v => [108] ++ show_dec v
+   | TkHex v => [120] ++ show_dec v
+   | TkHex64 v => [88] ++ show_dec v
+   | TkFloat b => [102] ++ show_hex16 b
+   | TkString s => [115] ++ show_hs (Some s)
+   | TkName s => [110] ++ show_hs (Some s)
+   | TkP p => [112; show_ptok p]
+   | TkError => [69]
+   | TkEOF => [90]
+   end) ++ [32] ++ show_dec (lt_line t).
+
+Definition run_line (w : world) (ln : bytes) : world * list bytes * bool :=
+  let c := w_cfg w in
+  let ws := words ln in
+  let api := fun _ : unit =>
+    match parse_aop ws with
+    | Some o => let '(c', r, ev) := api_step c o in (mkW c' (w_fs w), show_result r ev, is_crash r)
+    | None => (w, [[82;32;63]], false)
+    end in
+  match ws with
+  | [cmd] =>
+      if is_w cmd w_dump then (w, dump_cfg c, false)
+      else if is_w cmd w_write then
+        (w, [[82;32] ++ show_ret (RStr (Some (config_write fmt_double c)))], false)
+      else api tt
+  | [cmd; a] =>
+      if is_w cmd w_case then (mkW cfg_init [], [[67; 32] ++ a], false)
+      else if is_w cmd w_reads || is_w cmd w_readst then
+        let r := config_read atof (w_fs w) c None (hs_or_empty (parse_hs a)) in
+        (mkW (rd_cfg r) (w_fs w), show_rd r, is_exit r)
+      else if is_w cmd w_readf then
+        let r := config_read_file atof (w_fs w) c (hs_or_empty (parse_hs a)) in
+        (mkW (rd_cfg r) (w_fs w), show_rd r, is_exit r)
+      else if is_w cmd w_lex then
+        let '(toks, stop) := lex_top atof (w_fs w) c None (hs_or_empty (parse_hs a)) in
+        (w, map show_token toks ++
+            [match stop with
+             | StopEOB => [82;32;101;111;102] | StopError => [82;32;101;114;114]
+             | StopFatal _ => [82;32;102;97;116;97;108] | StopStuck => [82;32;115;116;117;99;107] end], false)
+      else api tt
+  | [cmd; sub; p] =>
+      if is_w cmd w_fs_ then
+        let path := hs_or_empty (parse_hs p) in
+        if is_w sub w_dir then (mkW c (fs_put (w_fs w) path FDir), [[82;32;117;110;105;116]], false)
+        else if is_w sub w_rm then (mkW c (fs_remove (w_fs w) path), [[82;32;117;110;105;116]], false)
+        else if is_w sub w_cat then
+          (w, [[82;32] ++ show_ret (RStr (match fs_lookup (w_fs w) path with
+                                          | Some (FFile t) => Some t | _ => None end))], false)
+        else (w, [[82;32;63]], false)
+      else api tt
+  | [cmd; sub; p; content] =>
+      if is_w cmd w_fs_ && is_w sub w_put then
+        (mkW c (fs_put (w_fs w) (hs_or_empty (parse_hs p)) (FFile (hs_or_empty (parse_hs content)))),
+         [[82;32;117;110;105;116]], false)
+      else api tt
+  | _ => api tt
+  end.
+
+Fixpoint run_lines (w : world) (ls : list bytes) : list bytes :=
   match ls with
   | [] => []
-  | [] :: r => run_lines c r
+  | [] :: r => run_lines w r
   | ln :: r =>
-      let '(c', out, stop) := run_line c ln in
-      if stop then out else out ++ run_lines c' r
+      let '(w', out, stop) := run_line w ln in
+      if stop then out else out ++ run_lines w' r
   end.
 
 Definition run_script (s : bytes) : bytes :=
-  flat_map (fun l => l ++ [10]) (run_lines cfg_init (lines s)).
+  flat_map (fun l => l ++ [10]) (run_lines (mkW cfg_init []) (lines s)).
